@@ -101,6 +101,21 @@ def smt_cases():
         widths=(1,))
     add(S([Start(), Group(S(lits("abcdefghijklmnopqrs"))), Backref(1)]), "", "long_literal_group_backref", nmax=38, lens=[38],
         widths=(1,))
+    # case-insensitive single characters, classes and class escapes (no icase backreferences here)
+    for ch in ["k", "\u212a", "s", "\u017f", "\u0131", "\u03c2", "\u00df", "\u1e9e", "\u0390", "\u1f80", "\ua7ce", "\u01c5"]:
+        for f in ["i", "iu", "iv"]:
+            add(S([L(ch)]), f, "icase_lit_%04X_%s" % (ord(ch), f), nmax=1, widths=(1, 2, 3))
+    for f in ["i", "iu"]:
+        add(S([Cls([ord("k")])]), f, "icase_cls_k_" + f, nmax=1, widths=(1, 2, 3))
+        add(S([Cls([ord("k")], neg=True)]), f, "icase_negcls_k_" + f, nmax=1, widths=(1, 2, 3))
+        add(S([Cls([(ord("a"), ord("z"))])]), f, "icase_range_az_" + f, nmax=1, widths=(1, 2, 3))
+        add(S([Cls([Esc("W")])]), f, "icase_cls_W_" + f, nmax=1, widths=(1, 2, 3))
+        add(S([Cls([Esc("w")], neg=True)]), f, "icase_negcls_w_" + f, nmax=1, widths=(1, 2, 3))
+        add(S([Esc("w")]), f, "icase_esc_w_" + f, nmax=1, widths=(1, 2, 3))
+        add(S([Esc("W")]), f, "icase_esc_W_" + f, nmax=1, widths=(1, 2, 3))
+        add(S([WB(), Dot()]), f, "icase_wordboundary_" + f, nmax=2, widths=(1, 2, 3))
+        add(S([Cls([(0x3B1, 0x3C9)], neg=True)]), f, "icase_neg_greek_" + f, nmax=1, widths=(1, 2, 3))
+        add(S([Quant(L("\u017f"), 1, 2), L("t")]), f, "icase_longs_loop_" + f, nmax=3, widths=(1, 2))
     # anchors and prefilter shapes
     add(S([Start(), Alt([a, b])]), "", "anchored_alt")
     add(Alt([S([Start(), a]), S([Start(), b])]), "", "anchored_each_branch")
@@ -146,6 +161,7 @@ def native_result(r):
 
 
 STEP_LIMIT = 4000
+STEP_LIMIT_C05 = 60000   # C05 mode: far above what any terminating search needs on <= 3 characters
 
 
 def run_mode(mode, case, progs, dumper, rng, budget_paths=20000, log=print):
@@ -154,8 +170,10 @@ def run_mode(mode, case, progs, dumper, rng, budget_paths=20000, log=print):
                outcomes=set(), result="pass", detail="")
     pat = [ord(ch) for ch in case.src]
 
+    limit = STEP_LIMIT_C05 if mode == "C05" else STEP_LIMIT
+
     def vm_run(prog, hy, ctx, s0, **kw):
-        vm = symvm.VM(prog, hy, ctx, step_limit=STEP_LIMIT, **kw)
+        vm = symvm.VM(prog, hy, ctx, step_limit=limit, **kw)
         try:
             r = vm.find_from(hy.off[s0])
         except symvm.StepLimit:
@@ -210,7 +228,7 @@ def run_mode(mode, case, progs, dumper, rng, budget_paths=20000, log=print):
         for which, no_opt in (("opt", False), ("noopt", True)):
             for s0 in range(0, n + 1):
                 try:
-                    leaves = list(ex.explore(lambda ctx: symvm.VM(progs[which], hy, ctx, step_limit=STEP_LIMIT).find_from(hy.off[s0])))
+                    leaves = list(ex.explore(lambda ctx: symvm.VM(progs[which], hy, ctx, step_limit=limit).find_from(hy.off[s0])))
                     got = leaves[0][1]
                 except symvm.StepLimit:
                     got = ("TIMEOUT",)
@@ -228,6 +246,12 @@ def run_mode(mode, case, progs, dumper, rng, budget_paths=20000, log=print):
                         out["result"] = "inconclusive"
                         out["detail"] = ("the real engine does not terminate on %r from %d (%s); termination is C05's "
                                          "subject, this case is skipped here" % (text, hy.off[s0], which))
+                    return out
+                if got == ("TIMEOUT",) and real != ("TIMEOUT",):
+                    # exponential but finite search: beyond the machine's step budget, fine for the real engine
+                    out["result"] = "expensive"
+                    out["detail"] = ("search on %r needs more than %d machine steps but the real engine answers within "
+                                     "the native time limit: exponential, not divergent; case skipped" % (text, limit))
                     return out
                 if got != real:
                     out["result"] = "inconclusive"
@@ -531,7 +555,11 @@ def main(argv):
                     ok, desc = confirm_native(mode, case, r["cex"], d)
                     r["reproduced"] = ok
                     r["native"] = desc
-                    if not ok:
+                    if not ok and mode == "C05":
+                        r["result"] = "expensive"
+                        r["detail"] = ("more than %d machine steps on %r, but the real engine answers within the native time "
+                                       "limit: exponential, not divergent" % (STEP_LIMIT_C05, r["cex"]["text"]))
+                    elif not ok:
                         r["result"] = "inconclusive"
                         r["detail"] = "solver counterexample did not reproduce natively: " + desc
                 print("[smt %s] %-10s %-34s /%s/%s leaves=%d queries=%d %.1fs %s" % (
